@@ -212,7 +212,16 @@ def replay_history(cases):
                         elif s["a"] == "writecsv":
                             write_csv(tracks[s["f"]][0], paths[s["f"]], CFG_A if s["f"] == "A" else CFG_B, si)
                         elif s["a"] == "writegpx":
-                            TrackWriter.writeToGpx(tracks["G"][0], paths["G"], af=False, oneFile=True)
+                            if (ci + si) % 2:
+                                # the writer's other documented option: the analytical features go into <extensions>; features
+                                # whose names start like the tags of the format itself (ele, time) are ordinary features
+                                gt = tracks["G"][0]
+                                if not gt.hasAnalyticalFeature("elevation_gain"):
+                                    gt.createAnalyticalFeature("elevation_gain", [1000.5 + k for k in range(gt.size())])
+                                    gt.createAnalyticalFeature("time_gap", [77.0 + k for k in range(gt.size())])
+                                TrackWriter.writeToGpx(gt, paths["G"], af=True, oneFile=True)
+                            else:
+                                TrackWriter.writeToGpx(tracks["G"][0], paths["G"], af=False, oneFile=True)
                         elif s["a"] == "readcsv":
                             cfg = CFG_A if s["f"] == "A" else CFG_B
                             back = TrackReader.readFromFile(paths[s["f"]], fmt_for(cfg))
